@@ -89,6 +89,13 @@ func runMuxStruct(c *mon.Ctx, prop string) {
 		if i%16 == 10 {
 			ops = churnScenario(r)
 		}
+		if i%16 == 6 || i%16 == 14 {
+			// remultiplexing: parsed PES and parsed first-packet adaptation fields handed to the Muxer as they are
+			if rops, n := remuxScenario(r, i%16 == 14); n > 0 {
+				ops = rops
+				c.Add("parsed_units_remultiplexed", int64(n))
+			}
+		}
 		if i%4 == 1 {
 			// PES headers at the edge of the write contract (forbidden or unsupported flag combinations, out-of-range values): whether
 			// the Muxer accepts or refuses such a unit, what reaches the output must be whole packets with gapless counters
